@@ -7,7 +7,7 @@ gen = importlib.import_module("mtu_gen")
 
 TRUSTED = [
     "Lean 4.33.0 kernel; axioms propext, Classical.choice, Quot.sound only (checked per theorem by #print axioms on every run)",
-    "hand-written mechanism models SimVerif/Tcp.lean (async_connect / internal_connect set mss from NetCfg.pathMtu; write_some_impl cuts every buffer at mss; send_packet / packet_dropped / the ACK path resend stored segments as they are) and SimVerif/Net.lean (udp send_to_impl: the don't-fragment test); theorems C20_tcp_segment_bound, C20_cutBuf, C20_no_merge_split, C20_udp_df hold in the open system TcpSys over these functions with an adversarial bag network",
+    "hand-written mechanism models SimVerif/Tcp.lean (async_connect / internal_connect set mss from NetCfg.pathMtu; write_some_impl cuts every buffer at mss; send_packet / packet_dropped / the ACK path resend stored segments as they are) and SimVerif/Net.lean (udp send_to_impl: the don't-fragment test); function-level theorems for all states and arguments (C20_cutBuf, C20_tcp_segments_per_buffer, C20_tcp_segment_bound, C20_tcp_sendSeg_packet, C20_connect_cases / C20_connect_sets_mss, C20_attach_sets_mss, C20_cfg_unchanged, C20_no_merge_split_dropped / _resend, C20_udp_df, C20_udp_df_irrelevant, C20_udp_whole) and system-level theorems over every label sequence of the open system SimVerif/StreamSys.lean with its adversarial bag network (C20_sys_segment_bound, C20_sys_unaltered)",
     "that hops forward packets unaltered is a fact about sim::queue / sim::nat / the sinks of the harness: validated on every run at every probe (same direction + sequence number => same length and payload digest), proved for queues in C10 (conservation)",
     "correspondence: simdrv drives the real sockets over real queue routes with probes at both ends of every access route; simcheck kernel must predict every probe line (length, overhead, source endpoint, payload digest) and every API result",
     "the trace-level statement (specs/mtu.py) recomputes the path MTU of every segment / datagram from the scenario's MTU table and the endpoints the trace reports; it does not use the model",
